@@ -29,9 +29,11 @@ def get(pid):
                         'comment traces are validated by TextBlockTrace.tla; builds: for 2 documents x 4 configurations, '
                         'copyright/creator variants with every line-break character, blank lines, */, #include, }; are built '
                         'and BuildHistoryTrace.tla requires the non-comment part of all files to be a function of the '
-                        'configuration without copyright/creator.')
+                        'configuration without copyright/creator; support_files.generate_cpp_code is given the same hostile texts '
+                        'as header (TextBlock and Comment): its code lines must stay those of the baseline.')
             text_checks.check_c19_text(chk, tier, seed, mods)
             history_checks.c19_build_part(chk, tier, seed)
+            history_checks.c19_support_header_part(chk)
             chk.exhaustive = True
             chk.assumptions = ['a comment line is a line starting with // ; explicit indent() calls on a Comment object '
                                'are outside the statement', 'a rendered line ending in a backslash (line splicing) is '
